@@ -14,7 +14,7 @@ done
 cd "$W/w" || exit 2
 CFG="$MOD.cfg"
 if [ "$1" = "-config" ]; then CFG="$2"; shift 2; fi
-exec java -Xss512m ${TLC_XMX:--Xmx6g} -XX:+UseParallelGC \
+exec java -Xss${TLC_XSS:-512m} ${TLC_XMX:--Xmx4g -Xmn48m} ${TLC_GC:--XX:+UseSerialGC} \
   -Djava.io.tmpdir="$W/tmp" \
   -Dtlc2.overrides.TLCOverrides=tlc2.overrides.TLCOverrides:wowsrp.Overrides \
   ${TLC_JAVA_OPTS} \
